@@ -455,6 +455,17 @@ class RangeIt(It):
         return StopIteration
 
 
+class RangeFromIt(It):
+    """start.. : unbounded; usable under zip / take / find"""
+    def __init__(self, a):
+        self.a = a
+
+    def next(self):
+        v = self.a
+        self.a = v + 1 if isinstance(v, int) else Term("+", v, 1)
+        return v
+
+
 class SymRangeIt(It):
     """range with a symbolic bound: the loop body is explored for exactly one iteration (abstraction)"""
     def __init__(self):
@@ -851,7 +862,11 @@ class Interp:
                     else:
                         entry = (v, ("not", [int(a[0]) for a in arms]), fn.loc(t["ln"]))
                         nxt = t["else"]
-                    # normalise X == c / X != c on an integer term to a guard on X itself
+                    # normalise X == c / X != c on an integer term to a guard on X itself (constant side first swapped)
+                    if isinstance(v, Term) and v.op in ("==", "!=") and len(v.args) == 2 and isinstance(v.args[0], int) and not isinstance(v.args[0], bool) \
+                            and not isinstance(v.args[1], int):
+                        v = Term(v.op, v.args[1], v.args[0])
+                        entry = (v, entry[1], entry[2])
                     if isinstance(v, Term) and v.op in ("==", "!=") and len(v.args) == 2 and isinstance(v.args[1], int) \
                             and not isinstance(v.args[1], bool) and [int(a[0]) for a in arms] == [0]:
                         truth = entry[1] != 0
@@ -1158,6 +1173,8 @@ def as_iter(interp, x):
             return RangeIt(x.items[0], x.items[1])
         if x.adt and x.adt.endswith("::RangeInclusive"):
             return RangeIt(x.items[0], x.items[1] + 1)
+        if x.adt and x.adt.endswith("::RangeFrom"):
+            return RangeFromIt(x.items[0])
         if x.kind in ("array", "vec"):
             return ListIt(list(x.items))
     raise Unanalysable("cannot iterate %r" % (x0,))
